@@ -150,7 +150,7 @@ def prop_modules(prop):
     """Props/<prop>.lean and, when present, Props/<prop>H.lean (the history form proved over the refinement) and
     Props/<prop>T.lean (the property for the TRANSLATED source, over Generated/Translated.lean)"""
     mods = [prop]
-    for suffix in ('H', 'T'):
+    for suffix in ('H', 'T', 'TT'):
         if os.path.exists(os.path.join(LEAN, 'LLTD', 'Props', prop + suffix + '.lean')):
             mods.append(prop + suffix)
     return mods
